@@ -239,6 +239,38 @@ def rule_template_reaches_cache(ctx, prog, an, rule, ca=None, only_adt=None):
                            "reported FlowSetBody::%s payload = %s" % (variant, canon(rep)[:200]), site=site(s["span"]))
 
 
+def rule_learned_in_stream_order(ctx, prog, ca, rid):
+    proto_of = {"V9Parser": "variable_versions::v9::", "IPFixParser": "variable_versions::ipfix::"}
+    root = PARSE_ROOTS[0]
+    done = set()
+    n = 0
+    for w in ca.writes:
+        pre = proto_of.get(w["adt"].rsplit("::", 1)[1])
+        if pre is None:
+            continue
+        wp = w["body"].path
+        if (wp, pre) in done:
+            continue
+        done.add((wp, pre))
+        doms = (pre + "FlowSet::parse", pre + "FlowSet::parse_be", pre + "FlowSet::parse_le")
+        anchor_ok = any(nd["path"] in doms for nd in prog.nodes.values()) if isinstance(prog.nodes, dict) else any(nd["path"] in doms for nd in prog.nodes)
+        if not ctx.anchor(rid, pre + "FlowSet::parse", anchor_ok or None):
+            continue
+        bad = prog.node_dominated_by(root, lambda nd, wp=wp: nd["path"] == wp or nd["path"].startswith(wp + "::{closure"), lambda nd: nd["path"] in doms)
+        n += 1
+        if bad is None:
+            ctx.ob(rid, wp, "reached-through-the-flowset-decode", False, "parse root %s missing from the call graph" % root)
+            continue
+        how = ""
+        if bad:
+            pth = prog.path_to(root, lambda nd, wp=wp: nd["path"] == wp or nd["path"].startswith(wp + "::{closure"), avoid_pred=lambda nd: nd["path"] in doms)
+            how = " e.g. " + " -> ".join("::".join(str(x).split("::")[-2:])[:60] for x in (pth or [])[-5:])
+        ctx.ob(rid, wp, "reached-through-the-flowset-decode", not bad,
+               ("%s writes %s.%s and is reachable from parse_bytes without passing through %sFlowSet::parse%s" % (wp, w["adt"].rsplit("::", 1)[1], w["field"], pre, how)) if bad
+               else "%s (writes %s) is only reachable through %sFlowSet::parse" % (wp, w["adt"].rsplit("::", 1)[1], pre), site=site(w["body"].span))
+    ctx.floor(rid, "crate", "cache-writing functions", n, 2)
+
+
 def run(ctx, env):
     prog = env.prog("default")
     an = An(prog)
@@ -297,6 +329,9 @@ def run(ctx, env):
     rule_valid_before_insert(ctx, prog, an, "R6.2", ca)
 
     rule_template_reaches_cache(ctx, prog, an, "R6.8", ca)
+    # R6.9
+    ctx.rule("R6.9", "templates are learned in stream order: every function that writes a template cache is reached from parse_bytes only through the per-flowset / per-set decode call of its protocol (FlowSet::parse), i.e. one flowset at a time at the repetition's cursor - no look-ahead pass installs a later definition before an earlier data flowset is decoded")
+    rule_learned_in_stream_order(ctx, prog, ca, "R6.9")
     # R6.3
     for r in ca.reads:
         b, t, c = r["body"], r["term"], r["callee"]
